@@ -118,13 +118,19 @@ def h8(b):
 # results of one execution
 
 class Violation:
-    def __init__(self, oracle, message, key=None):
+    def __init__(self, oracle, message, key=None, narrow=None):
         self.oracle = oracle          # stable oracle id, e.g. "C12/fetch-latest"
         self.message = message
         self.key = key or oracle      # known-finding matching key
+        # trace fields to override so that the replay holds exactly the
+        # failing fault plan (used by enumerating checks)
+        self.narrow = narrow
 
     def to_json(self):
-        return {"oracle": self.oracle, "message": self.message, "key": self.key}
+        d = {"oracle": self.oracle, "message": self.message, "key": self.key}
+        if self.narrow:
+            d["narrow"] = self.narrow
+        return d
 
 
 class Result:
@@ -139,9 +145,11 @@ class Result:
         self.sig = ""             # reach signature (string)
         self.nontrivial = False
         self.info = {}            # free-form, goes into samples
+        self.evals = 1            # executions performed inside this run
+        self.sigs = None          # optional list of reach signatures
 
-    def violate(self, oracle, message, key=None):
-        self.violations.append(Violation(oracle, message, key))
+    def violate(self, oracle, message, key=None, narrow=None):
+        self.violations.append(Violation(oracle, message, key, narrow))
 
     def probe(self, name, n=1):
         self.probes[name] = self.probes.get(name, 0) + n
@@ -285,7 +293,8 @@ def _run_batch(args):
                 continue
             rec.update(digest=res.digest, steps=res.steps, faults=res.faults,
                        probes=res.probes, sig=res.sig,
-                       nontrivial=res.nontrivial)
+                       nontrivial=res.nontrivial, evals=res.evals,
+                       sigs=res.sigs)
             if res.violations:
                 rec["violations"] = [v.to_json() for v in res.violations]
                 rec["trace"] = trace
@@ -517,7 +526,10 @@ def _explore(check, script_file, args):
         check.setup_worker()
     for key in sorted(by_key)[:6]:
         rec, v = by_key[key]
-        small, execs = minimise(check, rec["trace"], v["key"],
+        start = dict(rec["trace"])
+        if v.get("narrow"):
+            start.update(v["narrow"])
+        small, execs = minimise(check, start, v["key"],
                                 check.shrink_budget_s)
         res = run_trace(check, small)
         vv = next((x for x in res.violations if x.key == v["key"]), None)
@@ -565,13 +577,17 @@ def _absorb(agg, rec):
                               + rec["harness_error"])
         return
     agg["evals"] += 1
+    agg["execs"] = agg.get("execs", 0) + rec.get("evals", 1)
     agg["steps"] += rec["steps"]
     agg["digests"][rec["idx"]] = rec["digest"]
     for k, n in rec["faults"].items():
         agg["faults"][k] = agg["faults"].get(k, 0) + n
     for k, n in rec["probes"].items():
         agg["probes"][k] = agg["probes"].get(k, 0) + n
-    if rec["nontrivial"]:
+    if rec.get("sigs"):
+        for sg in rec["sigs"]:
+            agg["sigs"][sg] = agg["sigs"].get(sg, 0) + 1
+    elif rec["nontrivial"]:
         agg["sigs"][rec["sig"]] = agg["sigs"].get(rec["sig"], 0) + 1
     if rec.get("rechecked"):
         agg["rechecked"] += 1
@@ -602,7 +618,8 @@ def _write_evidence(check, tier, base_seed, agg, wall, wall_explore,
                     n_viol, known_hit, workers):
     samples = agg["samples"] or [{"note": "no sample retained"}]
     cov = {
-        "evaluations": agg["evals"],
+        "evaluations": agg.get("execs", agg["evals"]),
+        "scenarios": agg["evals"],
         "distinct_nontrivial": len(agg["sigs"]),
         "rule": check.rule,
         "samples": samples,
